@@ -7,7 +7,7 @@ from . import c01
 
 ID = "C12"
 LEVEL = "exploration"
-RUNS = (8000, 250000)
+RUNS = (16000, 300000)
 RULE = ("one seeded two-layer tree (incl. NULL/empty directory arguments, suffix spellings, process-wide drop-in list) read through "
         "all six entry points in one run: the four merged results must be pairwise equal and equal to model M5, both histories must "
         "list the consulted files in order, each member must equal an independent econf_readFile of its path, and folding the "
